@@ -52,7 +52,8 @@ def request_spec(a):
 def build_atom(cfg):
     import odxtools.request  # noqa (make sure the modules under analysis are imported)
     import odxtools.isotp_state_machine  # noqa
-    return {"rq": build.build_request(request_spec(cfg))}
+    fn = build.build_request_xml if cfg.get("via_xml") else build.build_request
+    return {"rq": fn(request_spec(cfg))}
 
 
 STRING_CATALOGUE = ["", "A", "abc", "\x00", "é", "€", "ÿ", "𝄞", "a\x00b", "Ā", "abcdefgh",
@@ -699,6 +700,17 @@ def configs_for(prop, tier, seed):
         if a["dt"] == "A_UINT32" and a.get("enc") == "BCD-P":
             c["W"] = 48
         cfgs.append(c)
+    # the same descriptions read from their ODX text by odxtools' own parser: a seeded fifth of
+    # them in the quick tier (all kinds of diag coded types, masks, encodings), all in the thorough one
+    rnd = random.Random(seed + 7)
+    for c in list(cfgs):
+        if c.get("dct") == "paramlen":
+            continue
+        if tier == "quick" and rnd.random() > 0.2 and c.get("mask") is None and \
+                c.get("dct", "std") == "std" and c.get("enc") is None:
+            continue
+        x = dict(c, id=c["id"] + "/xml", via_xml=True, build=dict(c["build"], via_xml=True))
+        cfgs.append(x)
     return cfgs
 
 
